@@ -1,15 +1,24 @@
 """C07 -- every ingestion path delivers the same messages for the same lines.
 
-Model: Model/Assemble.v (stream_step, queue_step over Prim/PyList.v and Model/AssembleIter.v).  Correspondence: H-stream
-(tools/props/stream_common.py): the extracted loops, given the real parser's per-line outcomes, against the six real
-front-ends.  Oracle: pairwise equality of the delivered sequences (raw, payload, bits, validity, wrapper fields, tag block) of the six front-ends; decode(*parts) against .decode() of the delivered sentence."""
+Models: Model/Assemble.v (stream_step, queue_step, the line sources; over Prim/PyList.v and Model/AssembleIter.v) and, for the
+composition over LINES proved in Props/C07.v part 2 (C07_readers_loops_equal, C07_socket, C07_six_frontends, C07_wrappers,
+C07_decode_agrees, C07_decode_agrees_schedule, C07), Model/Reader.v (= Model/Nmea.v produce -> Model/Tbq.v -> one loop iteration), Model/DecodeApi.v
+(decode_api) and Model/Socket.v (sock_iter_messages).
+Correspondence: (a) H-stream (tools/props/stream_common.py): the extracted loops, given the real parser's per-line outcomes,
+against the six real front-ends; (b) composed(): on generated line sequences the extracted rd_run (both loops, with and without
+a tag block queue) against IterMessages / NMEAQueue per line, and the extracted decode_api on the part lines of every message
+(arrival order and reversed) against pyais.decode_nmea_and_ais attribute by attribute.  Model/Socket.v is tied by C06's run.
+Oracle: pairwise equality of the delivered sequences (raw, payload, bits, validity, wrapper fields, tag block) of the six
+front-ends; decode(*parts) against .decode() of the delivered sentence."""
 import os
 import sys
 
 sys.path.insert(0, os.path.dirname(os.path.abspath(__file__)))
 import stream_common as sc  # noqa: E402
+import C05_readers as rdr  # noqa: E402
+import stream_glue  # noqa: E402
 
-GEN = ['GenConst.v']
+GEN = ['GenConst.v', 'GenTables.v', 'GenDispatch.v', 'GenConv.v', 'GenEnums.v', 'GenAlpha.v']
 RULE = ('line sequences built by the harness from K messages (1..9 fragments, random bit payloads of real message types '
         'armored and cut by tools/ais.py) in distinct or reused (sequence id, channel) slots, per-message fragment permutation, '
         'random interleaving, some messages left incomplete, mixed with Gatehouse wrappers (valid / invalid dates), tag-blocked '
@@ -17,8 +26,19 @@ RULE = ('line sequences built by the harness from K messages (1..9 fragments, ra
         'through IterMessages, ByteStream, BinaryIOStream, FileReaderStream, SocketStream (scripted recv) and NMEAQueue, with and '
         'without a TagBlockQueue; a case = (front-end, tbq, terminator, line list); distinct = distinct such tuples; thorough tier '
         'adds all arrival orders of small message sets')
-ASSUMPTIONS = ['the model receives the per-line outcome of the REAL NMEASentenceFactory.produce / TagBlockQueue.put_sentence '
-               '(the byte-level parser and the tag block queue are separate layers); the theorems quantify over these outcomes',
+ASSUMPTIONS = ['loop-level theorems (C07_queue_step_eq, C07_runs_*, C03, C18) quantify over the per-line outcomes of '
+               'NMEASentenceFactory.produce / TagBlockQueue.put_sentence, and correspondence (a) feeds the extracted loops the REAL '
+               'outcomes; the theorems of part 2 are over byte lines through the modelled parser and tag block queue, tied by '
+               'correspondence (b) here and by the parser / tag-block harnesses of C05, C10, C16, C17',
+               'C07_decode_agrees (1) takes a line sequence in which the lines storing into the message\'s (sequence id, channel) '
+               'slot are exactly its parts (any order, ANY other lines in between, no hypothesis on them); '
+               'C07_decode_agrees_schedule covers slot reuse (other messages of the same slot before and after) for line sequences '
+               'that parse, line by line, to a C03 well-formed schedule; with a tag block queue the lines of such a schedule / the parts '
+               'must not be rejected by it (no tag block, or one that tb.init() accepts) -- a rejected part is skipped by the reader, '
+               'so the message is never completed',
+               'the six-front-end theorem is about lines longer than 10 bytes starting with ! $ or backslash (what the Stream line '
+               'filter passes; IterMessages and NMEAQueue have no filter), terminated by LF or CR LF; a socket is the sequence of its '
+               'recv() results (C06)',
                'fragment count 0 / non-positive fragment numbers (IndexError in both loops) belong to C05 and are outside the '
                'schedules of C03; the model shows them, the correspondence check covers them']
 TRUSTED_EXTRA = ['Prim/PyList.v: list index / store / slice / repeat with CPython semantics (micro-harness on every run)',
@@ -26,9 +46,53 @@ TRUSTED_EXTRA = ['Prim/PyList.v: list index / store / slice / repeat with CPytho
 WANT = ('C07',)
 
 
+MIXED = (('NMEAQueue', b'\r\n'), ('SocketStream', b'\r\n'), ('ByteStream', b'\n'), ('BinaryIOStream', b'\r\n'))
+
+
+def mixed_terminators(lines, tbq):
+    """C07_six_frontends_bare / C07_terminators on the implementation: the in-memory iterator on the bare lines against other
+    front-ends on the same lines with the terminator their transport needs.  -> list of (front-end, component, kind, text)"""
+    results = {'IterMessages': sc.run_frontend('IterMessages', lines, tbq)}
+    for name, term in MIXED:
+        results[f'{name}+{term!r}'] = sc.run_frontend(name, [l + term for l in lines], tbq)
+    return sc.oracle_c07(results)
+
+
+def composed(ctx, n=None):
+    """Correspondence (b): the composed models of Props/C07.v part 2 against the implementation, on LINES; and the
+    terminator clause of the property evaluated on the implementation."""
+    rng, rep = ctx.rng, ctx.rep
+    n = n if n is not None else ctx.budget(25, 300)
+    dec_cases = []
+    for _ in range(n):
+        items = sc.gen_schedule(rng, rng.choice([1, 2, 3, 4]), max_frag=rng.choice([3, 5, 9]), p_incomplete=0.15, tagged=0.3)
+        rdr.check_sequence(ctx, items, [], 'composed-readers')          # rd_run vs IterMessages / NMEAQueue, tbq on and off
+        term = rng.choice([b'\n', b'\r\n', b'\r\n', b' \r\n'])
+        rdr.check_sequence(ctx, [dict(d, hex=(bytes.fromhex(d['hex']) + term).hex()) for d in items], [],
+                           'composed-readers-terminated')
+        if sc.in_scope(items):
+            lines = [bytes.fromhex(d['hex']) for d in items]
+            for tbq in (False, True):
+                rep.case(('mixed-terminators', tbq, tuple(lines)), kind='mixed-terminators')
+                for nm, comp, kind, text in mixed_terminators(lines, tbq):
+                    rep.violation({'entry': nm.split('+')[0], 'component': comp, 'kind': kind + ':terminator-dependent'},
+                                  f'bare lines through IterMessages vs terminated lines through {nm}: {text}',
+                                  {'mixed': True, 'lines': [l.hex() for l in lines], 'tbq': tbq})
+        by_msg = {}
+        for d in items:
+            if d.get('kind') == 'frag':
+                by_msg.setdefault(d['msg'], []).append(bytes.fromhex(d['hex']))   # arrival order (a permutation)
+        for parts in by_msg.values():
+            dec_cases.append(('composed-decode', parts))
+            if len(parts) > 1:
+                dec_cases.append(('composed-decode', parts[::-1]))
+    stream_glue.compare_decode_api(ctx, dec_cases)
+
+
 def run(ctx):
     sc.pylist_micro(ctx)
     sc.source_micro(ctx)
+    composed(ctx)
     sc.run_generated(ctx, WANT, ctx.budget(140, 1500), ctx.budget(40, 400))
     if ctx.quick:
         sc.small_scope(ctx, WANT, [(2, 1), (2, 2)], sc.FRONTENDS, with_wrappers=True)
@@ -54,4 +118,7 @@ def hunt(ctx):
 
 
 def replay(ctx, data):
+    if data.get('mixed'):
+        bad = mixed_terminators([bytes.fromhex(h) for h in data['lines']], data.get('tbq', False))
+        return bad[0][3] if bad else None
     return sc.replay_case(ctx, data, WANT)
